@@ -188,11 +188,20 @@ class VariablesCollector(ValidationVisitor):
             )
 
     def _flatten_fragments(self):
-        for parent, children in self._fragment_fragments.items():
-            for child in deduplicate(children):
-                for op in self._op_fragments.keys():
-                    if parent in self._op_fragments[op]:
-                        self._op_fragments[op].append(child)
+        # Transitive closure of the fragments spread by each operation,
+        # independently of the order in which fragments are defined.
+        for op in list(self._op_fragments.keys()):
+            seen = list(deduplicate(self._op_fragments[op]))
+            queue = list(seen)
+            while queue:
+                parent = queue.pop(0)
+                if parent not in self._fragment_fragments:
+                    continue
+                for child in self._fragment_fragments[parent]:
+                    if child not in seen:
+                        seen.append(child)
+                        queue.append(child)
+            self._op_fragments[op] = seen
 
     def leave_document(self, _):
         self._flatten_fragments()
